@@ -22,6 +22,8 @@ def ErrKind.name : ErrKind → String
 
 abbrev Res (α : Type) := Except ErrKind α
 
+deriving instance DecidableEq for Except
+
 abbrev Bytes := List Nat
 
 def Bytes.WF (bs : Bytes) : Prop := ∀ b ∈ bs, b < 256
